@@ -194,6 +194,19 @@ Proof.
 Qed.
 
 (* ---------- scanner.Find ---------- *)
+(* the arithmetic of one unsuccessful turn of Find's loop: the measure decreases *)
+Lemma mu_decrease (L base pos used pos1 used2 fuel : nat) :
+  (pos <= used)%nat -> (used <= 1024)%nat -> (base + used <= L)%nat ->
+  (used = 1024 \/ base + used = L \/ used = 0)%nat ->
+  ((pos1 = pos /\ used <= pos + 64) \/ (pos1 = used - 64 /\ pos + 64 < used))%nat ->
+  used2 = (used - pos1 + Nat.min (1024 - (used - pos1)) (L - (base + used)))%nat ->
+  (1024 <= used \/ used <> used2)%nat ->
+  (4 * (L - (base + pos)) + (if Nat.eqb pos 0 then 0 else 2) + (if Nat.eqb used 0 then 1 else 0) + 1 <= S fuel)%nat ->
+  (4 * (L - (base + pos1)) + 0 + (if Nat.eqb used2 0 then 1 else 0) + 1 <= fuel)%nat.
+Proof.
+  intros. destruct (Nat.eqb_spec pos 0), (Nat.eqb_spec used 0), (Nat.eqb_spec used2 0); lia.
+Qed.
+
 Section Windows.
   Variable file : bytes.
   (* no marker text is longer than the overlap of two search windows *)
@@ -292,7 +305,8 @@ Section Windows.
           assert (Ht' : (buf_size <= st_used st \/ st_used st <> st_used st2)%nat).
           { destruct Ht as [Ht|Ht]; [left; apply Nat.ltb_ge; exact Ht|right; apply Nat.eqb_neq; exact Ht]. }
           unfold mu in *. rewrite Hq2. unfold q in *. change (st_pos st2) with 0%nat. cbn [Nat.eqb].
-          destruct (Nat.eqb_spec (st_pos st) 0), (Nat.eqb_spec (st_used st) 0), (Nat.eqb_spec (st_used st2) 0); lia. }
+          rewrite HB, HO in *.
+          eapply (mu_decrease (length file) (st_base st) (st_pos st) (st_used st) (st_pos st1) (st_used st2) fuel); eauto. }
         pose proof (IH st2 Hinv2 Hmu) as Hst'.
         rewrite Hg2 in Hst'. destruct Hst' as (st' & Hw & Hq' & Hi').
         exists st'. split; [|split; [|exact Hi']].
@@ -323,7 +337,8 @@ Section Windows.
       assert (Ht' : (buf_size <= st_used st \/ st_used st <> st_used st2)%nat).
       { destruct Ht as [Ht|Ht]; [left; apply Nat.ltb_ge; exact Ht|right; apply Nat.eqb_neq; exact Ht]. }
       unfold mu in *. rewrite Hq2. unfold q in *. change (st_pos st2) with 0%nat. cbn [Nat.eqb].
-      destruct (Nat.eqb_spec (st_pos st) 0), (Nat.eqb_spec (st_used st) 0), (Nat.eqb_spec (st_used st2) 0); lia.
+      rewrite HB, HO in *.
+      eapply (mu_decrease (length file) (st_base st) (st_pos st) (st_used st) (st_pos st1) (st_used st2) fuel); eauto.
   Qed.
 
   Lemma mu_bound st : (mu st <= 4 * length file + 4)%nat.
